@@ -50,6 +50,8 @@ func init() {
 
 func c16Eval(c *fw.Ctx, data any) {
 	cs := data.(*c16Case)
+	// other use of the library first (ranges outside the 32-bit domain through both constructors among it)
+	apiNoise(prng.Derive(c.Seed, 1616, uint64(c.Index)), 60)
 	switch cs.Family {
 	case "range":
 		for first := cs.Lo; first < cs.Hi && first < 32; first++ {
@@ -74,6 +76,12 @@ func c16Range(c *fw.Ctx, first, last int) {
 	wantMask := uint32(((uint64(1) << uint(n)) - 1) << uint(first))
 	wantWord := uint16(first<<6 | (n - 1))
 	p, v, st := fw.Recover(func() {
+		if first >= 1 {
+			// a range outside the domain whose 16-bit offset/width word is the same number (width - 1 >= 64 carries
+			// into the offset bits) is created first: it is a different range
+			fw.Recover(func() { of.NewNXRange(first-1, first+n+62).ToOfsBits() })
+			fw.Recover(func() { of.NewNXRangeByOfsNBits(first-1, n+64).ToUint32Mask() })
+		}
 		r1 := of.NewNXRange(first, last)
 		r2 := of.NewNXRangeByOfsNBits(first, n)
 		for i, r := range []*of.NXRange{r1, r2} {
@@ -111,6 +119,23 @@ func c16Range(c *fw.Ctx, first, last int) {
 				c.Violation(kind, "regfield-header", "NewRegMatchField", fmt.Sprintf("reg%d: header %#08x, want %#08x", idx, got, wantHdr))
 			}
 			c.Count("regfields", 1)
+		}
+		// one range object used for two fields, the first of which its owner edits in between: the second field
+		// and the range itself are unaffected
+		rng := of.NewNXRange(first, last)
+		f1 := of.NewRegMatchField(first%16, 0x5a5a5a5a&wantMask, rng)
+		if m, ok := f1.Mask.(*of.Uint32Message); ok && m != nil {
+			m.Data = ^m.Data
+		}
+		if vv, ok := f1.Value.(*of.Uint32Message); ok && vv != nil {
+			vv.Data = ^vv.Data
+		}
+		f2 := of.NewRegMatchField(first%16, 0x5a5a5a5a&wantMask, rng)
+		if b, err := f2.MarshalBinary(); err != nil || len(b) != 12 || binary.BigEndian.Uint32(b[8:12]) != wantMask || binary.BigEndian.Uint32(b[4:8]) != 0x5a5a5a5a&wantMask {
+			c.Violation(kind, "regfield-mask", "second-field-from-the-same-range", fmt.Sprintf("a second register field built from the same range object after the first one was edited encodes to %x (err %v), want value %#08x mask %#08x", b, err, 0x5a5a5a5a&wantMask, wantMask))
+		}
+		if m := rng.ToUint32Mask(); m != wantMask {
+			c.Violation(kind, "mask", "range-after-use", fmt.Sprintf("after two fields were built from it the range answers mask %#08x, want %#08x", m, wantMask))
 		}
 	})
 	if p {
